@@ -122,7 +122,7 @@ class FakeTransport(asyncio.Transport):
 
     def write(self, data):
         data = bytes(data)
-        if self.lost or self._closing:
+        if (self.lost or self._closing) and not getattr(self, "close_deferred", False):
             self.net.ev("write_dropped", c=self.c, b=list(data), why="closed")
             return
         if self.fault_in:
@@ -163,9 +163,19 @@ class FakeTransport(asyncio.Transport):
         self._closing = True
         self.lost = True
         self.client_closed = True
-        self._unstall()
         self.net.ev("cclose", c=self.c)
+        if getattr(self, "paused", False):
+            # as a selector transport with unsent data: the close completes (connection_lost, hence
+            # wait_closed()) only when the buffer has drained - when the stall ends
+            self.close_deferred = True
+            return
         self.loop.call_soon(self._call_lost, None)
+
+    def finish_deferred_close(self):
+        if getattr(self, "close_deferred", False):
+            self.close_deferred = False
+            self._unstall()
+            self.loop.call_soon(self._call_lost, None)
 
     def abort(self):
         self.close()
@@ -185,6 +195,7 @@ class FakeTransport(asyncio.Transport):
             self.close()
 
     def peer_reset(self, exc=None):
+        self.finish_deferred_close()
         self._fatal(link_error(exc, ConnectionResetError("connection reset by peer")), "peer_reset")
 
     # the peer stops reading (half-open link, full send buffer): writes are still taken, drain() blocks
@@ -195,6 +206,7 @@ class FakeTransport(asyncio.Transport):
             self.protocol.pause_writing()
 
     def resume(self):
+        self.finish_deferred_close()
         if not self.lost and getattr(self, "paused", False):
             self.paused = False
             self.net.ev("resumed", c=self.c)
@@ -333,5 +345,10 @@ class SimNet:
         tr = FakeDatagramTransport(self, len(self.udp), proto, port)
         self.udp.append(tr)
         self.ev("udp_open", u=tr.u, lport=port)
-        proto.connection_made(tr)
+        # as BaseSelectorEventLoop / _SelectorDatagramTransport: connection_made and the waiter are
+        # scheduled with call_soon, the caller resumes two turns of the loop later
+        waiter = self.loop.create_future()
+        self.loop.call_soon(proto.connection_made, tr)
+        self.loop.call_soon(lambda: None if waiter.done() else waiter.set_result(None))
+        await waiter
         return tr, proto
